@@ -186,11 +186,11 @@ func corrC12(r *Run) {
 		"(fresh recording writer; *bytes.Buffer and a wrapper already holding 1..100 octets; a writer that gives up after 0..frame+5 octets; the same pointer marshalled twice); " +
 		"non-trivial = distinct (type, value) with at least one field beyond the header; distinct by canonical value text"
 	ts := pduTypes()
-	n := r.N(14, 600)         // per type
-	bigBudget := r.N(25, 600) // values whose term is tens of KiB are slow to parse inside coqc: a fixed number per run
+	n := r.N(11, 600)         // per type
+	bigBudget := r.N(12, 600) // values whose term is tens of KiB are slow to parse inside coqc: a fixed number per run
 	vol := &pduVolume{}
 	defer vol.diff(r)
-	volPerType := r.N(150, 3000) // further values per type, for the direct tests and the extracted model only
+	volPerType := r.N(110, 3000) // further values per type, for the direct tests and the extracted model only
 	one := func(t pduType, p interface{}, i int, kernel bool, tag string) {
 		before := clonePDU(p)
 		term := coqValue(before)
